@@ -352,6 +352,212 @@ def check_upd(ck, prog):
           key="UPD:lzma2-validate")
 
 
+_unchecked_cache = {}
+
+
+def unchecked_deref_summary(prog):
+    """(function name, parameter index) pairs whose pointer parameter is dereferenced -- directly, through a local alias, or
+    by passing it on to a callee with the same property -- on a path from the entry on which it has not been compared with
+    NULL (fixed point over the call graph of liblzma; depth is unbounded but the relation is finite)."""
+    k = id(prog)
+    if k in _unchecked_cache:
+        return _unchecked_cache[k]
+    fns = [f for fs in prog.functions.values() for f in fs if f.blocks]
+    D = {}          # (name, idx) -> (function, node) witness
+    TESTS = set()   # (name, idx): the function compares that parameter with NULL somewhere
+
+    def params(f):
+        return [v for v in f.vars if v.get("param")]
+
+    def analyse(f):
+        changed = False
+        ps = params(f)
+        for idx, pv in enumerate(ps):
+            if "*" not in (pv.get("ty") or "") or (f.name, idx) in D:
+                continue
+            names = {pv["n"]}
+            # local aliases: `T *x = p;` (single definition)
+            for b, i, e in f.iter_elems():
+                d = ex.deref(e)
+                if d.get("k") == "decl" and d.get("init") is not None:
+                    s = ex.strip(d["init"])
+                    if s is not None and s.get("k") == "var" and s.get("n") in names and s.get("id") == pv.get("id"):
+                        names.add(d["n"])
+
+            def isp(n):
+                n = ex.strip(n)
+                while n is not None and n.get("k") == "paren":
+                    n = ex.strip(n["e"])
+                return n is not None and n.get("k") == "var" and n.get("n") in names
+
+            def null_edge(b):
+                """index of the successor taken when the pointer IS NULL, or None if the branch is no NULL test"""
+                c = ex.strip(b.term["cond"]) if b.term and "cond" in b.term and len(b.succs) == 2 else None
+                if c is None:
+                    return None
+                neg = False
+                while c is not None and c.get("k") in ("un", "paren"):
+                    if c.get("k") == "un" and c["op"] == "!":
+                        neg = not neg
+                    elif c.get("k") == "un":
+                        return None
+                    c = ex.strip(c["e"])
+                if c is None:
+                    return None
+                if isp(c):
+                    return 0 if neg else 1
+                if c.get("k") == "bin" and c["op"] in ("==", "!="):
+                    if (isp(c["l"]) and ex.is_const(c["r"], 0)) or (isp(c["r"]) and ex.is_const(c["l"], 0)):
+                        eq_true = (c["op"] == "==") != neg
+                        return 0 if eq_true else 1
+                return None
+
+            def derefs(e):
+                for x in ex.walk(e, into_refs=False):
+                    kx = x.get("k")
+                    if kx == "mem" and x.get("arrow") and isp(x.get("b")):
+                        return x
+                    if kx == "un" and x.get("op") == "*" and isp(x.get("e")):
+                        return x
+                    if kx == "idx" and isp(x.get("b")):
+                        return x
+                    if kx == "call":
+                        for ai, a in enumerate(x.get("args") or ()):
+                            if isp(a):
+                                if (x.get("fn"), ai) in D:
+                                    return x
+                                if x.get("fn") in ("memcpy", "__builtin_memcpy", "__builtin___memcpy_chk", "memcmp") and ai in (0, 1):
+                                    return x
+                return None
+            def validates(cond):
+                """the condition contains a call that receives the pointer and tests it against NULL before using it"""
+                from sa import guard as _guard
+                for x in ex.walk(cond):
+                    for c in ([x] if x.get("k") == "call" else []):
+                        for ai, a in enumerate(c.get("args") or ()):
+                            if isp(a) and (c.get("fn"), ai) in TESTS and (c.get("fn"), ai) not in D:
+                                return True
+                    if x.get("k") == "var" and x.get("s") == "l" and not isp(x):
+                        d_ = _guard.single_def(f, x.get("id"))
+                        if d_ is not None and any(cc.get("k") == "call" and any(
+                                isp(a) and (cc.get("fn"), ai) in TESTS and (cc.get("fn"), ai) not in D
+                                for ai, a in enumerate(cc.get("args") or ())) for cc in ex.walk(d_)):
+                            return True
+                return False
+            seen, st = set(), [f.entry]
+            hit = None
+            while st and hit is None:
+                x = st.pop()
+                if x is None or x in seen:
+                    continue
+                seen.add(x)
+                b = f.blocks[x]
+                ne = null_edge(b)
+                for j, e in enumerate(b.elems):
+                    if e is None:
+                        continue
+                    if ne is not None and j == len(b.elems) - 1:
+                        continue        # the NULL test itself
+                    # a store to the parameter / alias ends the analysis of this path conservatively (treated as checked)
+                    h = derefs(e)
+                    if h is not None:
+                        hit = h
+                        break
+                if hit is not None:
+                    break
+                if ne is not None:
+                    st.append(b.succs[ne])
+                elif b.term and "cond" in b.term and len(b.succs) == 2 and validates(b.term["cond"]):
+                    pass        # the branch decides on the result of a callee that tests the pointer itself: checked from here on
+                else:
+                    st.extend(b.succs)
+            if hit is not None:
+                D[(f.name, idx)] = (f, hit)
+                changed = True
+        return changed
+    for f in fns:
+        for idx, pv in enumerate(params(f)):
+            if "*" not in (pv.get("ty") or ""):
+                continue
+            nm = {pv["n"]}
+            for b, i, e in f.iter_elems():
+                d = ex.deref(e)
+                if d.get("k") == "decl" and d.get("init") is not None:
+                    s = ex.strip(d["init"])
+                    if s is not None and s.get("k") == "var" and s.get("n") in nm:
+                        nm.add(d["n"])
+            for b in f.blocks.values():
+                c = ex.strip(b.term["cond"]) if b.term and "cond" in b.term else None
+                while c is not None and c.get("k") in ("un", "paren"):
+                    c = ex.strip(c["e"])
+                if c is None:
+                    continue
+                if (c.get("k") == "var" and c.get("n") in nm) or (
+                        c.get("k") == "bin" and c["op"] in ("==", "!=") and (
+                            (ex.strip(c["l"]).get("k") == "var" and ex.strip(c["l"]).get("n") in nm and ex.is_const(c["r"], 0)) or
+                            (ex.strip(c["r"]).get("k") == "var" and ex.strip(c["r"]).get("n") in nm and ex.is_const(c["l"], 0)))):
+                    TESTS.add((f.name, idx))
+    for _ in range(12):
+        ch = False
+        for f in fns:
+            ch = analyse(f) or ch
+        if not ch:
+            break
+    _unchecked_cache[k] = D
+    return D
+
+
+def check_null_options(ck, prog, rule="C12-NULLOPT", only=None):
+    """The filter-specific entry points take their options as `const void *options`.  For a filter that needs options a NULL
+    pointer is an invalid chain, and the encoder init functions answer it with LZMA_PROG_ERROR.  Every sibling that gets the
+    same pointer -- memory usage, Block size, decoder init -- has to test it before the first dereference as well, because
+    lzma_filters_update(), lzma_stream_encoder_mt() and the *_memusage() functions validate a chain through them: a change
+    that must be refused would otherwise crash the process."""
+    ck.rule(rule, "filter entry points: `const void *options` is compared with NULL before it is dereferenced (directly or in a callee)")
+    D = unchecked_deref_summary(prog)
+    from .C01 import table_rows, fn_name
+    entries = set()
+    for tab, file in (("encoders", "filter_encoder.c"), ("decoders", "filter_decoder.c")):
+        for row in table_rows(prog, tab, file):
+            for col, v in row.items():
+                nm = fn_name(v)
+                if nm:
+                    entries.add(nm)
+    # the LZ layer calls the filter's own init function through a pointer that the table's init function passes on
+    for fs in prog.functions.values():
+        for g in fs:
+            if not g.blocks:
+                continue
+            for b, i, e in g.iter_elems():
+                for c in ex.calls(e, into_refs=False):
+                    if c.get("fn") in ("lzma_lz_encoder_init", "lzma_lz_decoder_init"):
+                        for a in c.get("args") or ():
+                            nm = fn_name(a)
+                            if nm and nm in prog.functions:
+                                entries.add(nm)
+    n = 0
+    for f in sorted([f for fs in prog.functions.values() for f in fs if f.blocks], key=lambda f: (f.file, f.line)):
+        if f.name not in entries:
+            continue
+        if only is not None and not any(s in f.name for s in only):
+            continue
+        ps = [v for v in f.vars if v.get("param")]
+        for idx, pv in enumerate(ps):
+            if (pv.get("ty") or "").replace(" ", "") != "constvoid*" or pv["n"] not in ("options", "opt"):
+                continue
+            n += 1
+            ck.saw_function(f)
+            w = D.get((f.name, idx))
+            ck.ob(rule, f.name, w is None, common.where(f, w[1] if w else None),
+                  "%s: `%s` is tested against NULL before any dereference" % (f.name, pv["n"]) if w is None else
+                  "%s(): `%s` is dereferenced by `%s` on a path where it has not been compared with NULL: a filter chain whose LZMA "
+                  "options pointer is NULL (answered with LZMA_PROG_ERROR by the encoder init functions) crashes here -- reached from "
+                  "lzma_filters_update(), lzma_raw_decoder(), lzma_stream_encoder_mt() and the *_memusage()/lzma_mt_block_size() queries" % (
+                      f.name, pv["n"], ex.show(w[1])[:70]), key="NULLOPT:%s" % f.name)
+    if n < (3 if only else 10):
+        raise AnalysisBroken("%s: only %d filter entry points with a `const void *options` parameter found" % (rule, n))
+
+
 def run(ck):
     ck.explanation = (
         "Must-pass and dominance rules on the encoder state machines: Index bookkeeping after a Block end, no "
@@ -425,6 +631,8 @@ def run(ck):
     # "changing the filter chain between Blocks": the LZ encoder of the previous Block is re-used; its hash/son arrays are kept
     # only if their final size keys are unchanged (rule shared with C10)
     C10.check_sizekey(ck, prog, rule="C12-SIZEKEY", files={"lz_encoder.c"}, floor=1)
+    # "a refused change leaves the encoder usable": an invalid chain must be refused, not dereferenced
+    check_null_options(ck, prog)
     ck.floor("C12-CONV", 3)
     ck.floor("C12-LZMA2", 5)
     ck.floor("C12-UPD", 3)
